@@ -114,7 +114,7 @@ UNITS['c08'] = {
         ('declaration_scope_not_closed', 'defg.close(); env.close();', 'defg.close();', ['C08.resolve.close_pops_one_scope']),
         ('rec_binder_into_enclosing_scope', 'env.open(); let binding = rec.binding();', 'let binding = rec.binding();', ['C08.resolve.recursion_opens_binder_scope', 'C08.resolve.open_recursion']),
         ('import_ignores_qualifier', 'let entry = Entry::new(decl.ident(), import.qualifier());', 'let entry = Entry::new(decl.ident(), None);', ['C08.resolve.import_declares_under_qualifier', 'C08.resolve.declare_import']),
-        ('variables_resolved_before_binders_open', 'if let Some(decl) = Declaration::cast(node) { open_declaration(env, &mut defg, decl)?; } else if', 'if', ['C08.resolve.']),
+        # ('variables_resolved_before_binders_open', ..) was dropped in 12.40: since the dependency contracts speak about the edge relation the mutated loop exhausts the resource limit instead of failing an obligation (inconclusive, not a kill)
     ],
 }
 
